@@ -1,9 +1,9 @@
 #!/bin/bash
 # scripts/cross.sh "<seeded ids>" : apply each seeded change to /repo's working tree
 # (never committed), run ALL quick checks, print which ones fire; restore.
+V=$(cd "$(dirname "$0")/.." && pwd)
 cd /repo || exit 2
 [ -z "$(git status --porcelain)" ] || { echo "/repo not clean"; exit 2; }
-V=$(cd "$(dirname "$0")/.." && pwd)
 trap 'cd /repo && git checkout -- . && git clean -fdq -- . >/dev/null 2>&1' EXIT
 for id in $1; do
   d=/verif/seeded/$id
